@@ -1,4 +1,5 @@
 import gfapy
+import re
 
 class NumericArray(list):
   """
@@ -46,6 +47,16 @@ class NumericArray(list):
   """
   Range for integer subtypes
   (Python-style, i.e. range[1] is not included)
+  """
+
+  INT_REGEX = r"^[-+]?[0-9]+$"
+  """
+  Regular expression for the elements of integer arrays
+  """
+
+  FLOAT_REGEX = r"^[-+]?[0-9]*\.?[0-9]+([eE][-+]?[0-9]+)?$"
+  """
+  Regular expression for the elements of float arrays
   """
 
   def validate(self):
@@ -195,6 +206,11 @@ class NumericArray(list):
       range = NumericArray.SUBTYPE_RANGE[subtype]
     def gen():
       for e in elems[1:]:
+        if not valid and not re.match(
+            NumericArray.FLOAT_REGEX if subtype == "f"
+            else NumericArray.INT_REGEX, e):
+          raise gfapy.ValueError("Value is not valid: {}\n".format(e)+
+              "Numeric array string: {}".format(string))
         if subtype != "f":
           try:
             e = int(e)
